@@ -34,7 +34,7 @@ type Field struct {
 // Flag is one registered command-line flag.
 type Flag struct {
 	Name    string // as registered
-	Key     string // viper key bound by bindFlags (prefix "rollkit." stripped)
+	Key     string // path of the option the flag names = viper key bindFlags must bind it to (prefix "rollkit." stripped; flagAliases)
 	Kind    string // pflag value type
 	Def     string // pflag DefValue
 	Reaches []string
@@ -288,9 +288,25 @@ func NewCommand() *cobra.Command {
 	return cmd
 }
 
-func stripKey(name string) string { return strings.TrimPrefix(name, "rollkit.") }
+// flagAliases lists the flags whose name abbreviates the path of the option they name instead of
+// spelling it out ("rollkit." + path in the file): the option `signer.signer_type` is named by
+// `--rollkit.signer.type`. This is the property's vocabulary ("the option a flag names"), declared
+// here and NOT read from the code: that the compiled Load agrees is checked on every run by the
+// behavioural column `reaches` (Spec.C18.C18_reaches_agrees) and by the flagreach/load monitors.
+var flagAliases = map[string]string{
+	"rollkit.signer.type": "signer.signer_type",
+	"rollkit.signer.path": "signer.signer_path",
+}
 
-// Flags asks cobra/pflag for every registered flag. `Key` applies the rule of bindFlags; `Reaches`
+// stripKey: the path (in the configuration file) of the option a flag names.
+func stripKey(name string) string {
+	if k, ok := flagAliases[name]; ok {
+		return k
+	}
+	return strings.TrimPrefix(name, "rollkit.")
+}
+
+// Flags asks cobra/pflag for every registered flag. `Key` applies the naming rule (stripKey); `Reaches`
 // is obtained from the real Load (which fields change when only this flag is given), so that the
 // rule itself is checked against the compiled code (Spec.C18.reaches_agrees).
 func Flags(probe bool) ([]Flag, error) {
